@@ -118,6 +118,11 @@ func (w *lockWalker) expr(e ast.Expr, write bool) {
 				w.events = append(w.events, "PRead")
 				return false
 			}
+			if id, ok := x.Fun.(*ast.Ident); ok && id.Name == "delete" && len(x.Args) == 2 && w.templatesOf(x.Args[0]) {
+				w.expr(x.Args[1], false)
+				w.events = append(w.events, "PWrite")
+				return false
+			}
 			// json.Marshal(memCacheDisk{m, ...}) / anything that is handed the whole cache: reads every shard map
 			if exprString(x.Fun) == "json.Marshal" {
 				for _, a := range x.Args {
@@ -255,10 +260,112 @@ func genLocks() {
 		fmt.Fprintf(&sb, "Definition %s : list pev := [%s].\n", lf.coq, strings.Join(events, "; "))
 		info[lf.coq] = events
 	}
+	// every OTHER method of the cache types in these files that locks a shard or touches a shard map and is not merely a helper
+	// of another method of the same file (helpers are inlined where they are called): a function added later (remove, withdraw,
+	// expire, ...) is held to the same protocol
+	tab := map[string]bool{}
+	for _, lf := range lockFuncs {
+		tab[lf.file+":"+lf.fn] = true
+	}
+	var extraNames []string
+	for _, file := range []string{"ipfix/memcache.go", "ipfix/memcache_rpc.go", "netflow/v9/memcache.go"} {
+		f, ok := files[file]
+		if !ok {
+			_, f = parseFile(file)
+			files[file] = f
+		}
+		called := map[string]bool{}
+		for _, d := range f.Decls {
+			fd, ok := d.(*ast.FuncDecl)
+			if !ok || fd.Body == nil {
+				continue
+			}
+			ast.Inspect(fd.Body, func(n ast.Node) bool {
+				if c, ok := n.(*ast.CallExpr); ok {
+					if se, ok := c.Fun.(*ast.SelectorExpr); ok && se.Sel.Name != fd.Name.Name {
+						called[se.Sel.Name] = true
+					}
+				}
+				return true
+			})
+		}
+		for _, d := range f.Decls {
+			fd, ok := d.(*ast.FuncDecl)
+			if !ok || fd.Body == nil || fd.Recv == nil || tab[file+":"+fd.Name.Name] || called[fd.Name.Name] || fd.Name.Name == "getShard" {
+				continue
+			}
+			rt := fd.Recv.List[0].Type
+			if st, ok := rt.(*ast.StarExpr); ok {
+				rt = st.X
+			}
+			id, ok := rt.(*ast.Ident)
+			if !ok {
+				continue
+			}
+			w := &lockWalker{shardVar: map[string]bool{}, calls: calls, file: f, recv: id.Name}
+			if strings.HasPrefix(file, "netflow/") {
+				w.calls = map[string][]string{}
+			}
+			if len(fd.Recv.List[0].Names) > 0 {
+				w.cacheVar = fd.Recv.List[0].Names[0].Name
+			}
+			w.stmts(fd.Body.List)
+			events := append(w.events, w.deferred...)
+			if len(events) == 0 {
+				continue
+			}
+			pkg := "ipfix"
+			if strings.HasPrefix(file, "netflow/") {
+				pkg = "nf9"
+			}
+			name := fmt.Sprintf("extra_%s_%s_%s", pkg, strings.ToLower(id.Name), fd.Name.Name)
+			fmt.Fprintf(&sb, "Definition %s : list pev := [%s].\n", name, strings.Join(events, "; "))
+			info[name] = events
+			extraNames = append(extraNames, name)
+		}
+	}
+	// the state a shard consists of: the protocol speaks about the map and the mutex only; any further field is shared state the
+	// model knows nothing about (a lock-free lookaside, a counter ...)
+	var fieldRows []string
+	for _, file := range []string{"ipfix/memcache.go", "netflow/v9/memcache.go"} {
+		var fields []string
+		for _, d := range files[file].Decls {
+			gd, ok := d.(*ast.GenDecl)
+			if !ok {
+				continue
+			}
+			for _, sp := range gd.Specs {
+				ts, ok := sp.(*ast.TypeSpec)
+				if !ok || ts.Name.Name != "TemplatesShard" {
+					continue
+				}
+				if st, ok := ts.Type.(*ast.StructType); ok {
+					for _, fl := range st.Fields.List {
+						if len(fl.Names) == 0 {
+							fields = append(fields, exprString(fl.Type))
+						}
+						for _, n := range fl.Names {
+							fields = append(fields, n.Name)
+						}
+					}
+				}
+			}
+		}
+		var q []string
+		for _, x := range fields {
+			q = append(q, coqStr(x))
+		}
+		fieldRows = append(fieldRows, fmt.Sprintf("(%s, [%s])", coqStr(file), strings.Join(q, "; ")))
+		info["shard_fields:"+file] = fields
+	}
+	sb.WriteString("\nDefinition shard_fields : list (string * list string) :=\n  [" + strings.Join(fieldRows, ";\n   ") + "].\n")
 	sb.WriteString("\nDefinition cache_functions : list (string * list pev) :=\n  [")
 	var names []string
 	for _, lf := range lockFuncs {
 		names = append(names, fmt.Sprintf("(%s, %s)", coqStr(lf.coq), lf.coq))
+	}
+	for _, n := range extraNames {
+		names = append(names, fmt.Sprintf("(%s, %s)", coqStr(n), n))
 	}
 	sb.WriteString(strings.Join(names, ";\n   ") + "].\n")
 	writeIfChanged("Locks.v", sb.String())
